@@ -127,6 +127,10 @@ public:
   json::OStream &J;
   std::map<const Stmt *, unsigned> Ids;
   unsigned NextId = 0;
+  // In template instantiations: record the value of boolean expressions the
+  // compiler folds to a constant ("cv"), so that path rules can follow the
+  // branches this instantiation actually has.
+  bool FoldConst = false;
 
   unsigned lineOf(SourceLocation L) {
     if (L.isInvalid())
@@ -324,6 +328,14 @@ public:
     J.objectBegin();
     J.attribute("i", Id);
     J.attribute("l", lineOf(S->getBeginLoc()));
+    if (FoldConst)
+      if (auto *OE = dyn_cast<Expr>(Outer))
+        if (OE->getType()->isBooleanType() && !OE->isValueDependent() &&
+            !OE->isTypeDependent() && !OE->containsErrors()) {
+          bool V;
+          if (OE->EvaluateAsBooleanCondition(V, Ctx))
+            J.attribute("cv", V);
+        }
 
     if (auto *E = dyn_cast<CXXMemberCallExpr>(S)) {
       J.attribute("k", "mcall");
@@ -974,6 +986,7 @@ public:
     J.attributeEnd();
 
     Emitter Em(Ctx, J);
+    Em.FoldConst = FD->isTemplateInstantiation() && !FD->isDependentContext();
     if (auto *CD = dyn_cast<CXXConstructorDecl>(FD)) {
       J.attributeBegin("inits");
       J.arrayBegin();
